@@ -116,3 +116,51 @@ def ctValid (l : Level) (ct : Ct) (scaleIsOne scaleIsZero : Bool) : Bool :=
   sizeOk && shapeOk && scaleOk && cfOk
 
 end HC
+
+namespace HC
+
+def rnsSub (l : Level) (a b : RnsPoly) : R RnsPoly := rnsZip l a b subMod
+def rnsNeg (l : Level) (a : RnsPoly) : R RnsPoly :=
+  (List.range l.size).foldlM (fun acc i => do
+    let c ← mapM' (a.getD i #[]) (fun x => negateMod x (l.q i))
+    pure (acc.push c)) #[]
+
+/-- `translate_inplace` for equal correction factors: polynomial-wise add / sub with the shape of `translateShape` -/
+def ctTranslate (l : Level) (a b : Ct) (sub : Bool) : R Ct := do
+  if a.ntt ≠ b.ntt then .error .refused else
+  if a.cf ≠ b.cf then .error .other else          -- (balancing path not modelled here)
+  let ps ← (translateShape a.polys.size b.polys.size).mapM fun t =>
+    match t with
+    | .both i => if sub then rnsSub l (a.polys.getD i #[]) (b.polys.getD i #[]) else rnsAdd l (a.polys.getD i #[]) (b.polys.getD i #[])
+    | .left i => pure (a.polys.getD i #[])
+    | .right i => if sub then rnsNeg l (b.polys.getD i #[]) else pure (b.polys.getD i #[])
+  pure { a with polys := ps.toArray }
+
+def ctNegate (l : Level) (a : Ct) : R Ct := do
+  let ps ← a.polys.toList.mapM (fun p => rnsNeg l p)
+  pure { a with polys := ps.toArray }
+
+/-- `ckks_multiply` (also the dyadic step of `bgv_multiply`): output polynomial i = Σ over `mulPairs` of dyadic products,
+    accumulated with modular additions -/
+def ctMultiplyDyadic (l : Level) (a b : Ct) : R Ct := do
+  if !a.ntt ∨ !b.ntt then .error .refused else
+  let n1 := a.polys.size; let n2 := b.polys.size
+  if n1 < 1 ∨ n2 < 1 then .error .refused else
+  let ps ← (List.range (n1 + n2 - 1)).mapM fun i =>
+    (mulPairs n1 n2 i).foldlM (fun acc p => do
+      let pr ← rnsDyadic l (a.polys.getD p.1 #[]) (b.polys.getD p.2 #[])
+      rnsAdd l acc pr) (rnsZero l)
+  pure { a with polys := ps.toArray }
+
+/-- `multiply_plain_ntt`: every polynomial times the (NTT-form) plaintext, component-wise -/
+def ctMultiplyPlainNtt (l : Level) (a : Ct) (p : RnsPoly) : R Ct := do
+  if !a.ntt then .error .refused else
+  let ps ← a.polys.toList.mapM (fun c => rnsDyadic l c p)
+  pure { a with polys := ps.toArray }
+
+/-- `is_scale_within_bounds` for CKKS: scale > 0 and ⌊log2 scale⌋ < bit count of the level's modulus,
+    i.e. scale < 2^bits (no logarithm needed) -/
+def ckksScaleOk (scale : Float) (totalBits : Nat) : Bool :=
+  !(scale ≤ 0.0) && scale < Float.ofScientific 1 false 0 * (Float.ofNat 2) ^ (Float.ofNat totalBits)
+
+end HC
